@@ -1,4 +1,5 @@
 import MirProofs.Lemmas.Matching
+import MirProofs.Lemmas.FastHit
 /-!
   C05 — hit counts come from a valid, maximum one-to-one matching.
 
@@ -53,6 +54,28 @@ theorem size_le_sides (E : List Edge) (nL nR : Nat) (hL : ∀ e ∈ E, e.1 < nL)
 theorem matching_le_cover (E M : List Edge) (cl cr : List Nat)
     (hM : ValidMatching E M) (hC : ∀ e ∈ E, e.1 ∈ cl ∨ e.2 ∈ cr) : M.length ≤ cl.length + cr.length :=
   weak_duality hM hC
+
+/-- The feasible-pair enumeration of `util._fast_hit_windows` (argsort, two `searchsorted`, slice) produces
+    pair `(i, j)` iff `|ref_i - est_j| ≤ window` — for every unsorted / duplicated input and every window. -/
+theorem fast_hit_windows_is_the_tolerance_predicate (ref est : List Rat) (w : Rat) (i j : Nat) :
+    (i, j) ∈ fastHitWindows ref est w ↔
+      ∃ r e, ref[i]? = some r ∧ est[j]? = some e ∧ |r - e| ≤ w := by
+  rw [fastHitWindows_spec]
+  constructor
+  · rintro ⟨r, e, hr, he, h1, h2⟩
+    exact ⟨r, e, hr, he, abs_le.2 ⟨by linarith, by linarith⟩⟩
+  · rintro ⟨r, e, hr, he, h⟩
+    have := abs_le.1 h
+    exact ⟨r, e, hr, he, by linarith, by linarith⟩
+
+/-- Hence the number of pairs `util.match_events` returns (in the model) is the maximum number of
+    one-to-one pairs within the window. -/
+theorem match_events_size_is_maximum (ref est : List Rat) (w : Rat) :
+    matchEventsSize ref est w = hitCount (withinWindow w) ref est ∧
+      IsMaxSize (hitGraph (withinWindow w) ref est) (matchEventsSize ref est w) := by
+  refine ⟨matchEventsSize_eq_hitCount ref est w, ?_⟩
+  rw [matchEventsSize_eq_hitCount]
+  exact maxMatchSize_isMax _
 
 /-! non-vacuity: a graph on which greedy pairing is not maximum -/
 example : ValidMatching [(0, 0), (0, 1), (1, 0)] [(0, 1), (1, 0)] := by decide
